@@ -218,6 +218,14 @@ class System:
 
     def reset(self, init):
         """init = {'entries': [(idx, owner key)], 'dead': [owner keys]}"""
+        # fresh manager objects per execution: whatever a manager remembers
+        # must not leak from one schedule into the next
+        if self.kind == 'rule':
+            self.mgrs = [rulefile.RuleMgr(self.table, self.apps)
+                         for _ in range(2)]
+        else:
+            self.mgrs = [endpoints.EndpointsMgr(self.table)
+                         for _ in range(2)]
         for e in os.listdir(self.table):
             os.unlink(os.path.join(self.table, e))
         for key, name in OWNERS.items():
